@@ -1184,17 +1184,11 @@ cache_harness! {
             p.metrics.add(MetricType::CostAdd, x.key, ents[0].unwrap().1 as u64);
         }
         let k = nd::any_u64();
-        let ev = nd::any_u8_in(0, 2);
-        let rej0 = mrec::get(&p.metrics, MetricType::RejectSets);
-        if ev == 0 {
-            let item = Item::New { key: k, conflict: 0, cost: nd::any_i64_in(0, COST_MAX), value: 2, expiration: time_at(clock::get(), Duration::ZERO) };
-            vassert!(p.proc_.handle_insert_event(Ok(item)).is_ok(), "New handled");
-            let rejected = p.cb.rejects(2) == 1 && a.map_or(true, |x| x.key != k);
-            let oversize_or_popularity = mrec::get(&p.metrics, MetricType::RejectSets) == rej0 + 1;
-            vassert!(!oversize_or_popularity || rejected, "sets_rejected only counts inserts the policy refused");
-            vcover!(oversize_or_popularity, "popularity rejection counted");
-            vcover!(raw(&p.store, k).is_some() && p.cb.all() == 1, "admission with an eviction");
-        } else if ev == 1 {
+        // the New event's counters are decided on the real add (c17_add_metrics_n2: CostAdd, CostEvict,
+        // KeyEvict, RejectSets) and by the wiring harness (KeyAdd exactly on admission); here the
+        // Update and Delete events
+        let ev = nd::any_u8_in(1, 2);
+        if ev == 1 {
             let item = Item::Update { key: k, cost: nd::any_i64_in(0, COST_MAX), external_cost: 0 };
             vassert!(p.proc_.handle_insert_event(Ok(item)).is_ok(), "Update handled");
             vcover!(a.map_or(false, |x| x.key == k && p.policy.cost(&k) < ents[0].unwrap().1), "cost lowered (two's-complement delta)");
